@@ -207,23 +207,32 @@ func (g *bindGen) insertExpr(p *stmtPlan) string {
 	default:
 		// basic: (c1, c2) VALUES ($T.a, 'lit', $M.k)
 		n := 1 + r.intn(4)
-		var cols, vals []string
+		var cols, vals, usedIn []string
 		inputs := 0
 		for i := 0; i < n; i++ {
 			cols = append(cols, r.pick([]string{"c1", "c2", "name", "id", "t.c3", "\"q c\""}))
 			switch r.intn(4) {
 			case 0:
+				if len(usedIn) > 0 && r.chance(1, 3) {
+					// a literal that mentions an input of this very statement inside a string, a quoted
+					// identifier, a function argument or a comment: opaque text
+					e := r.pick(usedIn)
+					vals = append(vals, r.pick([]string{"'" + e + "'", "\"" + e + "\"", "f('" + e + "')", "/* " + e + " */ 1", "'a''" + e + "'", "2 -- " + e + "\n"}))
+					break
+				}
 				vals = append(vals, r.pick([]string{"'lit'", "1", "NULL", "f(1, 'a,b')", "(1+2)", "'it''s'", "/* c */ 2",
-				"7 -- seven\n", "'x' -- k\r\n ", "1 ", "2\t", "3 /* three */ ", "now( )  "}))
+					"7 -- seven\n", "'x' -- k\r\n ", "1 ", "2\t", "3 /* three */ ", "now( )  "}))
 			case 1:
 				t := r.pick(goodMaps)
 				p.use(t, true)
 				vals = append(vals, "$"+t+"."+r.pick(mapKeys))
+				usedIn = append(usedIn, vals[len(vals)-1], "$"+t+".*")
 				inputs++
 			default:
 				t := g.structName()
 				p.use(t, true)
 				vals = append(vals, "$"+t+"."+g.tagOf(t))
+				usedIn = append(usedIn, vals[len(vals)-1], "$"+t+".*")
 				inputs++
 			}
 		}
